@@ -270,7 +270,8 @@ def run(index: RepoIndex, rep) -> None:
 
 def check_gym_space(index: RepoIndex, rep, rule: str) -> None:
     f = index.func(GYM, 'outer_space_to_gym_space')
-    w = walk_function(f.node)
+    from ..view import view
+    w = view(index, f)[1]
     sp = f.node.args.args[0].arg
     rets = [e for e in w.events if e.kind == 'return' and e.value is not None]
     ok = False
@@ -315,11 +316,12 @@ def representation_switch(index: RepoIndex, rep, rule: str) -> None:
         m = ge.methods.get(meth)
         if m is None:
             raise AnalysisError(f'anchor vanished: GymEnvironment.{meth}')
-        w = walk_function(m.node)
+        from ..view import view
+        w = view(index, m, keep=('outer_space_to_gym_space',))[1]
         np_ = m.node.args.args[1].arg
         st = [e for e in w.events if e.kind == 'attrstore']
-        r1 = [e for e in st if src(e.target) == f'self.outer_env.{rattr}']
-        r2 = [e for e in st if src(e.target) == f'self.{sattr}']
+        r1 = [e for e in st if src(w.expand(e.target)) == f'self.outer_env.{rattr}']
+        r2 = [e for e in st if src(w.expand(e.target)) == f'self.{sattr}']
         ok1 = len(r1) == 1 and src(w.expand(r1[0].value)) == \
             f'{maker}({np_}, self.outer_env.inner_env.{ispace})'
         rep.check(ok1, rule, GYM, f'GymEnvironment.{meth}', m.node.lineno,
